@@ -944,6 +944,32 @@ def _x_roots(draw, og):
     return {"args": [], "kw": {"roots": draw(st.lists(st.integers(-3, 3), min_size=n, max_size=n))}}
 
 
+@extra("aspolynomial-args")
+def _x_aspoly(draw, og):
+    """aspolynomial / polynomial with explicit names= / dtype= (the no-copy shortcuts live here)"""
+    a = og.array(draw, max_ndim=2)
+    return {"args": [P(a)], "kw": {"how": draw(st.sampled_from(["names-prefix", "names-same", "names-poly", "dtype-same",
+                                                             "dtype-other", "polynomial-names"]))}}
+
+
+@extra("copyto")
+def _x_copyto(draw, og):
+    """explicit output: the DESTINATION (first operand) may change, the source must not"""
+    src = og.array(draw, min_ndim=1, max_ndim=2)
+    # destination with the same layout (names, term rows, shape, kind) but other coefficients
+    size = gen.size_of(tuple(src["shape"]))
+    dst = dict(src)
+    dst["terms"] = [[list(t[0]), draw(st.lists(gen.coef_st(src["kind"]), min_size=size, max_size=size))]
+                    for t in src["terms"]]
+    dst["retain"] = True
+    src = dict(src, retain=True)
+    kw = {}
+    if draw(st.booleans()):
+        kw["where"] = NP(draw(st.lists(st.booleans(), min_size=size, max_size=size)), dtype="bool",
+                         shape=tuple(src["shape"]))
+    return {"args": [P(dst), P(src)], "kw": kw}
+
+
 @extra("gradient")
 def _x_gradient(draw, og):
     return {"args": [P(og.array(draw, max_ndim=2))], "kw": {}}
@@ -1009,6 +1035,21 @@ def invoke_extra(name, args, kw):
         return p(**kw["values"])
     if name == "derivative":
         return numpoly.derivative(p, *kw["vars"])
+    if name == "aspolynomial-args":
+        how = kw["how"]
+        if how == "names-prefix":
+            return numpoly.aspolynomial(p, names="q")
+        if how == "names-same":
+            return numpoly.aspolynomial(p, names=p.names)
+        if how == "names-poly":
+            return numpoly.aspolynomial(p, names=p)
+        if how == "dtype-same":
+            return numpoly.aspolynomial(p, dtype=p.dtype)
+        if how == "dtype-other":
+            return numpoly.aspolynomial(p, dtype="complex128")
+        return numpoly.polynomial(p, names=p.names)
+    if name == "copyto":
+        return numpoly.copyto(args[0], args[1], **kw)
     if name == "construct-monomial":
         return numpoly.monomial(**kw)
     if name == "construct-variable":
